@@ -27,6 +27,11 @@ package main
 // crypto/rand is replaced by a deterministic stream per step (detrand), so the
 // assignment of blobs to packs repeats from run to run.
 //
+// Part 2: the repack step itself (repository.CopyBlobs, shared by prune and copy)
+// with 2 and 3 workers on two packs that both hold the used blob X: every
+// SaveBlob of a worker is a scheduling point, all orders within the deviation
+// bound; every kept blob must be saved exactly once (no duplicate after a prune).
+//
 // Observation (independent of prune's code): raw listings before and after -
 // pack files with their headers decrypted by the harness (pack.List with the
 // repository key), index files decrypted through LoadUnpacked and decoded by
@@ -82,9 +87,11 @@ import (
 	"context"
 	"crypto/sha256"
 	"encoding/json"
+	"errors"
 	"fmt"
 	"sort"
 	"strings"
+	"sync"
 	"testing"
 	"time"
 
@@ -99,6 +106,8 @@ import (
 	"github.com/restic/restic/internal/verifshim/gatebe"
 	"github.com/restic/restic/internal/verifshim/oracle"
 	"github.com/restic/restic/internal/verifshim/vh"
+	"github.com/restic/restic/internal/verifshim/vx"
+	"github.com/restic/restic/internal/verifshim/xplore"
 )
 
 const verifC10PackSize = 4096
@@ -926,9 +935,143 @@ func (c *verifC10Ctx) check(ck string, h *verifC10Hist) {
 	}
 }
 
+// ---- part 2: the repack step under all interleavings of its workers ----
+
+// verifC10GatedSaver makes every SaveBlob of the repack workers a scheduling point.
+type verifC10GatedSaver struct {
+	restic.BlobSaverWithAsync
+	x     *xplore.Exec
+	label map[restic.ID]string
+	mu    sync.Mutex
+	saves map[string]int
+}
+
+func (g *verifC10GatedSaver) SaveBlob(ctx context.Context, t restic.BlobType, buf []byte, id restic.ID, storeDuplicate bool) (restic.ID, bool, int, error) {
+	lab := g.label[id]
+	g.mu.Lock()
+	g.saves[lab]++
+	n := g.saves[lab]
+	g.mu.Unlock()
+	if g.x.Gate(xplore.Event{Key: fmt.Sprintf("repack:SaveBlob:%s#%d", lab, n), Proc: "repack", Kind: "SaveBlob"}) < 0 {
+		return restic.ID{}, false, 0, errors.New("execution torn down")
+	}
+	return g.BlobSaverWithAsync.SaveBlob(ctx, t, buf, id, storeDuplicate)
+}
+
+// verifC10Repack: a used blob X is stored in two packs that are both repacked (each also holds another used
+// and an unused blob); the real repository.CopyBlobs (the repack step of prune and copy) runs with 2 and 3
+// workers; every SaveBlob of a worker is a gate, all orders within the deviation bound.  After a full
+// prune no blob may be stored twice: every kept blob is saved exactly once by the repack step.
+func verifC10Repack(t *testing.T, r *vh.Run) {
+	ctx := context.Background()
+	restore := detrand.Install(10)
+	repo, store, err := oracle.NewRepo(ctx, 2, repository.Options{})
+	if err != nil {
+		t.Fatal(err)
+	}
+	blob := func(seed uint64) []byte { return oracle.LCG(seed, 900) }
+	X, A, B, U1, U2 := blob(101), blob(102), blob(103), blob(104), blob(105)
+	label := map[restic.ID]string{restic.Hash(X): "X", restic.Hash(A): "A", restic.Hash(B): "B", restic.Hash(U1): "U1", restic.Hash(U2): "U2"}
+	for _, sess := range [][][]byte{{A, X, U1}, {B, X, U2}} {
+		if err := repo.WithBlobUploader(ctx, func(ctx context.Context, up restic.BlobSaverWithAsync) error {
+			for _, b := range sess {
+				if _, _, _, err := up.SaveBlob(ctx, restic.DataBlob, b, restic.ID{}, true); err != nil {
+					return err
+				}
+			}
+			return nil
+		}); err != nil {
+			t.Fatal(err)
+		}
+	}
+	restore()
+	base := store.Snapshot()
+	packs := restic.NewIDSet()
+	for k := range base {
+		if k.Type == backend.PackFile {
+			id, _ := restic.ParseID(k.Name)
+			packs.Insert(id)
+		}
+	}
+	if len(packs) != 2 {
+		t.Fatalf("repack fixture: %d packs", len(packs))
+	}
+	type exec struct {
+		saver *verifC10GatedSaver
+		keep  restic.BlobSet
+		err   error
+		done  bool
+	}
+	for _, conns := range []uint{3, 4} {
+		name := fmt.Sprintf("repack/conns=%d", conns)
+		sc := xplore.Scenario{
+			Start: func(x *xplore.Exec) {
+				st := &exec{keep: restic.NewBlobSet()}
+				x.Data = st
+				for _, b := range [][]byte{X, A, B} {
+					st.keep.Insert(restic.BlobHandle{Type: restic.DataBlob, ID: restic.Hash(b)})
+				}
+				be := &gatebe.Backend{S: gatebe.NewStoreFrom(base, nil), Proc: "be", Conns: conns, AtomicReplace: true}
+				rp, err := oracle.OpenOn(x.Ctx, be, repository.Options{})
+				if err != nil {
+					t.Fatalf("open: %v", err)
+				}
+				if err := rp.LoadIndex(x.Ctx, restic.NoopTerminalCounterFactory); err != nil {
+					t.Fatalf("LoadIndex: %v", err)
+				}
+				x.Go("prune", func() {
+					st.err = rp.WithBlobUploader(x.Ctx, func(ctx context.Context, up restic.BlobSaverWithAsync) error {
+						st.saver = &verifC10GatedSaver{BlobSaverWithAsync: up, x: x, label: label, saves: map[string]int{}}
+						return repository.CopyBlobs(ctx, rp, rp, st.saver, packs, st.keep, restic.NoopCounter, nil)
+					})
+					st.done = true
+				})
+			},
+		}
+		check := func(x *xplore.Exec) {
+			st := x.Data.(*exec)
+			r.State(name + "|" + strings.Join(x.Trace, ">"))
+			if len(x.Trace) >= 3 {
+				r.Nontrivial(name + "|" + strings.Join(x.Trace, ">"))
+			}
+			var bad []string
+			switch {
+			case len(x.Panics) > 0:
+				bad = append(bad, "panic: "+x.Panics[0])
+			case x.Deadlock:
+				bad = append(bad, "deadlock: the repack step blocks forever")
+			case st.done && st.err != nil:
+				bad = append(bad, fmt.Sprintf("error: the repack step failed without a fault: %v", st.err))
+			case st.done:
+				for _, lab := range []string{"X", "A", "B"} {
+					if n := st.saver.saves[lab]; n != 1 {
+						bad = append(bad, fmt.Sprintf("duplicate: the repack step saved the used blob %s %d times (it is stored in %d of the repacked packs): after the prune it is stored %d times", lab, n, map[string]int{"X": 2, "A": 1, "B": 1}[lab], n))
+					}
+				}
+				for _, lab := range []string{"U1", "U2"} {
+					if st.saver.saves[lab] != 0 {
+						bad = append(bad, "waste: the unused blob "+lab+" was repacked")
+					}
+				}
+				if st.keep.Len() != 0 {
+					bad = append(bad, fmt.Sprintf("lost: %d blob(s) to keep were not processed", st.keep.Len()))
+				}
+			}
+			r.Outcome(fmt.Sprintf("%s ok=%v", name, len(bad) == 0))
+			if len(bad) > 0 {
+				kind := bad[0][:strings.Index(bad[0], ":")]
+				vx.Violation(r, name, x, "C10|repack|"+kind+"|"+name, strings.Join(bad, "\n"), nil)
+			}
+		}
+		stt := vx.Explore(r, t, name, sc, xplore.Options{Policy: xplore.FIFO, Bound: 2, MaxSteps: 200}, check)
+		r.Note("%s: execs(this shard)=%d", name, stt.Execs)
+	}
+}
+
 func TestVerif_C10(t *testing.T) {
 	r := vh.Start(t, "C10")
 	defer r.Finish()
+	verifC10Repack(t, r)
 	maxOps := vh.Pick(r, 3, 4)
 	verifC10WithFC = r.Thorough()
 	r.Rule(fmt.Sprintf("every history of at most %d operations (repository format v1: thorough only, at most 3) over {forge t1,t2,t3, forge with one pack per blob, forge uncompressed (thorough), hand-written mixed pack, forget oldest, forget newest, duplicate blobs, unindexed pack, delete an unneeded pack}, each followed by the real runPrune --max-unused 0 --json on a private copy; states = distinct repository states before prune (packs named by content); non-trivial = the state holds waste (unused or duplicate index entries, unindexed or missing packs) or packs are repacked", maxOps))
